@@ -190,7 +190,8 @@ def rand_expr(rnd, names):
         return {'binary': {'op': rnd.choice(['+', '-', '<', '==', '&&', '||', '*']), 'left': V(rnd.choice(names)), 'right': N(rnd.randint(0, 4))}}
     if x < 0.9:
         return {'unary': {'op': '!', 'expr': V(rnd.choice(names))}}
-    return {'function': {'name': rnd.choice(['f1', 'f2', 'mathAbs', 'f3']), 'args': [V(rnd.choice(names))] * rnd.randint(0, 2)}}
+    # (len / abs / max are expression-only aliases: undefined functions inside a script)
+    return {'function': {'name': rnd.choice(['f1', 'f2', 'mathAbs', 'f3', 'len', 'abs', 'max']), 'args': [V(rnd.choice(names))] * rnd.randint(0, 2)}}
 
 
 def rand_stmts(rnd, n, names, infunc, nested=False):
